@@ -12,7 +12,7 @@ for name, r in sorted(c.items()):
         if det:
             print('WARNING preserving variant alarms:', name, det)
     else:
-        m = re.match(r'(?:seed2?-)?(C\d\d)', name)
+        m = re.match(r'(?:seed\d*-)?(C\d\d)', name)
         own = m.group(1) if m else None
         e[name] = {'kind': 'breaking', 'property': own, 'expect': det}
         if own and own not in det:
